@@ -103,7 +103,13 @@ class Engine:
     # ------------------------------------------------------------ generate
     def gen(self, T, prop, tier, ctx=None):
         use_defaults_fmt = T.draw(5) == 0
-        if use_defaults_fmt:
+        long_ = (not use_defaults_fmt) and T.draw(9) == 0
+        if long_:
+            # hours-long recording at 1-2 Hz with minute/hour-sized windows:
+            # exercises the h/m/s fields of the time formats and values
+            # beyond 24 h
+            sw, ch, sr = 1, 1, T.choice([1, 2])
+        elif use_defaults_fmt:
             sw, ch, sr = 2, 1, 16000
         else:
             sw = T.choice([2, 1, 4])
@@ -111,7 +117,11 @@ class Engine:
             sr = T.choice([100, 10, 16, 1000, 8000, 16000])
         # analysis window
         a_given = T.draw(4) != 0
-        if a_given:
+        if long_:
+            a_given = True
+            bsz = T.choice([3600, 61, 4000, 21600, 3599, 777]) * sr
+            a = C.block_dur_for(bsz, sr)
+        elif a_given:
             bsz = T.choice([1, 2, 3, 5, 8])
             a = C.block_dur_for(bsz, sr)
         else:
@@ -157,6 +167,8 @@ class Engine:
         kind = T.choice(["raw", "wav", "stdin", "raw_noext"])
         large = bool(T.draw(2)) if kind != "stdin" else False
         nmax = 40 if tier == "quick" else 100
+        if long_:
+            nmax = 40
         if defaults_ok and ("n" not in opt or "s" not in opt):
             nmax = 140 if tier == "quick" else 700
         n = T.draw(nmax + 1)
@@ -171,7 +183,7 @@ class Engine:
         save_O = T.draw(3) == 0
         join = None
         if T.draw(4) == 0:
-            join = T.choice([0, 0.4, 1, 2.5, 7]) / sr
+            join = T.choice([0, 0.4, 1, 1.5, 0.6, 2.75, 3.5, 7]) / sr
         outfmt = T.choice([None, None, "wav", "raw"])
         o_ext = T.choice(["wav", "raw"])
         O_ext = T.choice(["wav", "raw"])
@@ -185,7 +197,7 @@ class Engine:
                     "j": 1 + T.draw(n + 3),
                     "time": T.choice([0.0, 0.5, 1.0, 1.5, 3.0, 10.0])}
         sc = {"prop": prop, "fmt": [sw, ch, sr, bsz], "n": n, "extra": extra,
-              "kind": kind, "large": large, "opt": opt,
+              "kind": kind, "large": large, "opt": opt, "long": long_,
               "defaults_fmt": use_defaults_fmt, "printf": pf,
               "time_format": tf, "bad_time_format": bad_tf, "quiet": quiet,
               "save_o": save_o, "save_O": save_O, "join": join,
@@ -206,10 +218,18 @@ class Engine:
         sw, ch, sr, bsz = sc["fmt"]
         bps = sw * ch
         opt = sc["opt"]
-        data = b"".join(make_cli_window(i, c, bsz, sw, ch)
-                        for i, c in enumerate(sc["pattern"]))
-        if sc["extra"]:
-            data += make_cli_window(len(sc["pattern"]), 1, sc["extra"], sw, ch)
+        if sc.get("long"):
+            data = b"".join(
+                (bytes([0x40 + (i % 32)]) if c else b"\x00") * bsz
+                for i, c in enumerate(sc["pattern"]))
+            if sc["extra"]:
+                data += b"\x55" * sc["extra"]
+        else:
+            data = b"".join(make_cli_window(i, c, bsz, sw, ch)
+                            for i, c in enumerate(sc["pattern"]))
+            if sc["extra"]:
+                data += make_cli_window(len(sc["pattern"]), 1, sc["extra"],
+                                        sw, ch)
         tmp = C.scratch_dir()
         seams.reset_captures(tmp)
         scfg = dict(sc["sched"])
@@ -502,6 +522,10 @@ class Engine:
             out["probes"]["default_analysis_window"] = 1
         if sc["defaults_fmt"]:
             out["probes"]["default_audio_format"] = 1
+        if E and E[-1].end >= 86400:
+            out["probes"]["time_value_beyond_24h"] = 1
+        elif E and E[-1].end >= 3600:
+            out["probes"]["time_value_beyond_1h"] = 1
         out["nontrivial"] = bool(nd >= 1 and
                                  sim.counters.get("switch_inflight", 0) >= 1)
         out["summary"] = {"argv": [a if not a.startswith("/") else
